@@ -193,6 +193,7 @@ def run(ctx):
                            "total_disagreements": len(bad)})
         scoping(ctx, forest, paths)
         known(ctx, forest)
+        wrapper(ctx)
     finally:
         forest.close()
 
@@ -271,6 +272,39 @@ def known(ctx, forest):
                               {"property": "C17", "kind": "newline-in-path", "regextype": ty, "pattern": pat.decode(), "matched": [fw.hexs(x) for x in got],
                                "language": [fw.hexs(x) for x in sorted(want)],
                                "explain": "regardless of the order in which alternatives are written: the whole path, final newline included, must be consumed"})
+
+
+def wrapper(ctx):
+    """the text handed to the engine: inside_group (hook) against the RegexWrap model, whose output is proved never to close the
+    wrapping group (C17_wrapper_never_closed_early) - every pattern up to a length bound over the characters the scanner looks at,
+    and longer random ones"""
+    import itertools
+    rng = ctx.rng
+    alpha = ["\\", "[", "]", "(", ")", "^", ":", "1", "9", "0", "a", "|"]
+    pats = []
+    for n in range(0, (5 if ctx.thorough else 4) + 1):
+        for tup in itertools.product(alpha, repeat=n):
+            pats.append("".join(tup))
+    pieces = alpha + ["[:punct:]", "[:digit:]", "[:alpha:]", "[[:punct:]]", "[^[:digit:]x]", "\\1", "\\9", "\\(", "\\)", "[)]", "[]", "[^]", "\u00e9", ".", "*", "{2}", "[:punct", "[:"]
+    for _ in range(20000 if ctx.thorough else 2000):
+        pats.append("".join(rng.choice(pieces) for _ in range(rng.randint(1, 9))))
+    cases = [(p, e) for p in pats for e in (0, 1)]
+    il = ["rxwrap %d %s" % (e, fw.hexs(p.encode())) for p, e in cases]
+    ml = ["rxwrap %d %s" % (e, ".".join(str(ord(c)) for c in p) if p else "-") for p, e in cases]
+    impl = fw.run_lines(fw.FUV, il)
+    model = fw.run_lines(fw.FUVM, ml)
+    bad = []
+    for (p, e), i, m in zip(cases, impl, model):
+        mt = "" if m == "-" else "".join(chr(int(x)) for x in m.split("."))
+        it = fw.unhex(i).decode("utf-8", "replace") if i not in ("panic", "badcase", "badutf8") else i
+        ctx.count(("wrap", p, e), any(c in p for c in "\\[)"), ["wrapper", "extended=%d" % e, "len=%s" % (len(p) if len(p) < 6 else "6+")])
+        if it != mt:
+            bad.append((p, e, it, mt))
+    for p, e, it, mt in bad[:3]:
+        ctx.violation("inside_group(%r, extended=%d): implementation %r, RegexWrap model %r" % (p, e, it, mt),
+                      {"property": "C17", "kind": "wrapper", "pattern": p, "extended": e, "implementation": it, "model": mt,
+                       "explain": "the model's text is proved never to close the group the pattern is wrapped in; back-references are shifted by one; "
+                                  "[:punct:] and [:digit:] are spelled out", "total_disagreements": len(bad)})
 
 
 def replay(ctx, rep):
